@@ -44,7 +44,7 @@ fn strategy(t: Tier) -> BoxedStrategy<Case> {
         .boxed()
 }
 
-fn run(c: &Case) -> Verdict {
+pub fn run(c: &Case) -> Verdict {
     let n = c.h.n;
     let d = run_history(Fam::Dyn, &c.h, |_, _, _, _, _| Ok(()));
     let s = run_history(Fam::Static, &c.h, |_, _, _, _, _| Ok(()));
